@@ -1,7 +1,7 @@
 """C11 configuration for ./check (see checks/propcfg.py for the keys)."""
 CFG = {
-    "modules": ["VaxisModel.Props.C11", "VaxisModel.Witness.F111"],
-    "extractors": ["C11", "C07"],
+    "modules": ["VaxisModel.Props.C11", "VaxisModel.Props.C01App", "VaxisModel.Props.C11Gfx", "VaxisModel.Witness.C11ShowCursor", "VaxisModel.Witness.F111"],
+    "extractors": ["C11", "C07", "C20"],
     "drivers": ["C11"],
     "stateful": False,
     "trivial_prefix": (),
